@@ -353,7 +353,10 @@ func (w *World) PrepareScript(signers []SignerSpec, script []byte, label string)
 }
 
 func (w *World) prepare(all []SignerSpec, h util.Uint160, method string, args []any, dedup bool) *Pending {
-	script, err := smartcontract.CreateCallScript(h, method, args...)
+	script, err := callScript(h, method, args)
+	if script == nil && err == nil {
+		script, err = smartcontract.CreateCallScript(h, method, args...)
+	}
 	if err != nil {
 		panic(fmt.Sprintf("script for %s: %v", method, err))
 	}
